@@ -155,7 +155,7 @@ PLAN = {
         'note': COMMON_TRUST + 'The relational corollary (uncurl(list on) == list off) is not yet a checked lemma.',
     },
     'C18': {
-        'bounded': ['emoji_tables', 'phonetic_api'],
+        'bounded': ['emoji_tables', 'phonetic_api', 'update_engine'],
         'level': 'other',
         'units': ['fixed_session', 'phon', 'rank'],
         'technique': 'Verus: emoticon/emoji clauses of the assembled list around an abstracted 5-line region (assumed contract)',
